@@ -791,6 +791,9 @@ theorem decOpt_encOpt (o : Option Nat) (rest : Bytes) (h : optFits o) :
     rw [take64_le64 _ _ h]
     simp
 
+instance (o : Option Nat) : Decidable (optFits o) := by
+  cases o <;> simp only [optFits] <;> infer_instance
+
 /-- a record whose fields fit the on-disk header: what `OwnedRecord::new` can represent without truncation -/
 structure RecFits (P : Params) (r : Rec) : Prop where
   lsn : r.lsn < 2^64
@@ -802,6 +805,12 @@ structure RecFits (P : Params) (r : Rec) : Prop where
   undo : r.undo.length < 2^16
   redo : r.redo.length < 2^16
   size : recSize P r < 2^32
+
+instance (P : Params) (r : Rec) : Decidable (RecFits P r) :=
+  decidable_of_iff (r.lsn < 2^64 ∧ r.tid < 2^64 ∧ optFits r.prev ∧ optFits r.oid ∧ optFits r.rowid ∧ r.kind < 256 ∧
+      r.undo.length < 2^16 ∧ r.redo.length < 2^16 ∧ recSize P r < 2^32)
+    ⟨fun ⟨a, b, c, d, e, f, g, h, i⟩ => ⟨a, b, c, d, e, f, g, h, i⟩,
+     fun ⟨a, b, c, d, e, f, g, h, i⟩ => ⟨a, b, c, d, e, f, g, h, i⟩⟩
 
 theorem decode_encode (P : Params) (h80 : P.recHdr = 80) (ha : 0 < P.align) (r : Rec) (hf : RecFits P r) (rest : Bytes) :
     decodeRecord (encodeRecord P r ++ rest) = some (r, rest) := by
@@ -838,4 +847,32 @@ theorem decode_encode (P : Params) (h80 : P.recHdr = 80) (ha : 0 < P.align) (r :
   rw [e1]
   generalize hpad : List.replicate (paddedSize P (r.undo.length + r.redo.length) - (r.undo.length + r.redo.length)) (0 : UInt8) = pad at *
   rw [hlen, List.take_left' rfl, List.drop_left' rfl, List.take_left' rfl, List.drop_left' rfl, List.take_left' rfl]
+theorem encodeRecord_length' (P : Params) (h80 : P.recHdr = 80) (ha : 0 < P.align) (r : Rec) :
+    (encodeRecord P r).length = recSize P r := by
+  have hp := paddedSize_ge P ha (r.undo.length + r.redo.length)
+  simp only [encodeRecord, encOpt, recSize, List.length_append, le64_length, le32_length, le16_length,
+    List.length_cons, List.length_nil, List.length_replicate]
+  cases r.prev <;> cases r.oid <;> cases r.rowid <;> simp only [List.length_append, le64_length] <;> omega
+
+theorem decodeRecs_encodeRecs (P : Params) (h80 : P.recHdr = 80) (ha : 0 < P.align) (rs : List Rec)
+    (hf : ∀ r ∈ rs, RecFits P r) (off : Nat) (tail : Bytes) :
+    decodeRecs rs.length (off + (rs.map (recSize P)).sum) off (encodeRecs P rs ++ tail) = some rs := by
+  induction rs generalizing off with
+  | nil => simp [decodeRecs]
+  | cons r rs ih =>
+    have hpos := recSize_pos P (by omega) r
+    simp only [List.length_cons, decodeRecs, List.map_cons, List.sum_cons]
+    have hn : ¬ (off ≥ off + (recSize P r + (rs.map (recSize P)).sum)) := by omega
+    simp only [hn, if_false, encodeRecs, List.flatMap_cons, List.append_assoc]
+    rw [decode_encode P h80 ha r (hf r (by simp))]
+    simp only
+    have hl : (encodeRecord P r ++ (List.flatMap (encodeRecord P) rs ++ tail)).length -
+        (List.flatMap (encodeRecord P) rs ++ tail).length = recSize P r := by
+      rw [List.length_append, encodeRecord_length' P h80 ha]; omega
+    rw [hl]
+    have e : off + (recSize P r + (rs.map (recSize P)).sum) = (off + recSize P r) + (rs.map (recSize P)).sum := by omega
+    rw [e]
+    have := ih (fun x hx => hf x (by simp [hx])) (off + recSize P r)
+    simp only [encodeRecs] at this
+    rw [this]
 end AxVerif.Wal
